@@ -162,23 +162,38 @@ func execOp(line string) {
 		emit(line, safely(func() string { return implFix(t) }))
 
 	case "tlogw":
+		// tlogw <dialect> <epochMicro> <frame> [failAt]
 		emit(line, safely(func() string {
 			ep, _ := strconv.ParseInt(t[2], 10, 64)
-			fr := decFrame(t[3], getDialect(t[1]))
+			// "<writer dialect>@<dialect of the message prototypes>"
+			proto := t[1]
+			if i := strings.IndexByte(t[1], '@'); i >= 0 {
+				proto = t[1][i+1:]
+				t[1] = t[1][:i]
+			}
+			fr := decFrame(t[3], getDialect(proto))
 			w := &recWriter{failAt: -1}
+			if len(t) > 4 {
+				fa, _ := strconv.Atoi(t[4])
+				w.failAt = fa
+			}
 			tw := &tlog.Writer{ByteWriter: w, DialectRW: getDialectRW(t[1])}
 			if err := tw.Initialize(); err != nil {
 				return "init-err"
 			}
 			err := tw.Write(&tlog.Entry{Time: time.UnixMicro(ep), Frame: fr})
-			var cs []string
+			var all []byte
 			for _, c := range w.calls {
-				cs = append(cs, strings.TrimPrefix(hx(c), "-"))
+				all = append(all, c...)
 			}
 			if err != nil {
-				return "failed:" + strings.Join(cs, ",") + ":" + werrKind(err)
+				k := werrKind(err)
+				if strings.HasPrefix(k, "tr") {
+					return "failed:*:" + k
+				}
+				return "failed:" + strings.TrimPrefix(hx(all), "-") + ":" + k
 			}
-			return "wrote:" + strings.Join(cs, ",")
+			return "wrote:" + strings.TrimPrefix(hx(all), "-")
 		}))
 
 	case "tlogr":
